@@ -16,7 +16,7 @@ import os
 import numpy as np
 
 PROP = 'C14'
-TARGETS = ['T14', 'T14p', 'T14v']
+TARGETS = ['T14', 'T14p', 'T14v', 'T14s']
 LEAN_MODULES = ['HdVerif.Props.C14']
 MODEL_MODULES = ['HdVerif.Model.SRContentSeq']
 NAMESPACE = 'HdVerif.C14'
@@ -276,7 +276,10 @@ def _spelt_alike(a, b):
 
 
 def _uid_of(item):
-    return int(str(item.ObservationUID).rsplit('.', 1)[1])
+    try:
+        return int(str(item.ObservationUID).rsplit('.', 1)[1])
+    except Exception:  # noqa: BLE001   (something that is not one of the generated items got into a sequence)
+        return -1
 
 
 def _build(d):
@@ -407,6 +410,12 @@ def _oracle(ctx, case, step, seq, kind, objs, probes, obs):
     lst = list(seq)
     luids = [_uid_of(i) for i in lst]
     where = {'case': case, 'step': step}
+    from highdicom.sr import ContentItem as _CI
+    if any(not isinstance(i, _CI) for i in lst):
+        # what is in the list is a content item (every entry path tests the type); nothing else can be evaluated then
+        ctx.fail(where, {'what': 'an element of the sequence is not a content item',
+                         'types': [type(i).__name__ for i in lst], 'list': luids}, site='non-item-entered')
+        return
     # find: exactly the current items with that name, once each (multiset; the property does not fix the order), for the
     # name spelled as CodedConcept and as pydicom Code
     for n, spelling in [(n, sp) for n in range(ALL_NAMES) for sp in ('find', 'find_code')]:
@@ -458,6 +467,35 @@ def _oracle(ctx, case, step, seq, kind, objs, probes, obs):
         if obs['in'][k] != present:
             ctx.fail(where, {'what': f'(item {u} in seq) disagrees with the list', 'got': obs['in'][k], 'want': present,
                              'list': luids}, site='contains')
+    # position queries and the other inherited read accessors agree with the list itself (pydicom keeps it in `_list`)
+    n = len(lst)
+    raw = getattr(seq, '_list', None)
+    try:
+        if isinstance(raw, list) and (len(raw) != n or any(a is not b for a, b in zip(raw, lst))):
+            ctx.fail(where, {'what': 'iterating the sequence does not yield the stored list', 'iter': luids,
+                             'stored': [_uid_of(i) for i in raw]}, site='positions')
+        if len(seq) != n:
+            ctx.fail(where, {'what': 'len(seq) != number of items', 'got': len(seq), 'want': n}, site='positions')
+        if any(seq[j] is not lst[j] for j in range(-n, n)):
+            ctx.fail(where, {'what': 'seq[j] is not the j-th item of the list for some j', 'list': luids}, site='positions')
+        if any(a is not b for a, b in zip(reversed(seq), lst[::-1])) or any(a is not b for a, b in zip(seq[::-1], lst[::-1])) \
+                or len(seq[::2]) != len(lst[::2]):
+            ctx.fail(where, {'what': 'reversed(seq) / seq[::-1] / seq[::2] disagree with the list', 'list': luids}, site='positions')
+        for j in (n, -n - 1):
+            try:
+                seq[j]
+                ctx.fail(where, {'what': f'seq[{j}] of a sequence of length {n} did not raise IndexError'}, site='positions')
+            except IndexError:
+                pass
+        for t in probes[:4]:
+            x = objs.by_tag[t]
+            if seq.count(x) != sum(1 for i in lst if i == x):
+                ctx.fail(where, {'what': f'count(item {_uid_of(x)}) disagrees with the list', 'got': seq.count(x),
+                                 'want': sum(1 for i in lst if i == x)}, site='positions')
+        if not (seq == lst) or (seq != lst):
+            ctx.fail(where, {'what': 'the sequence does not compare equal to the list of its items'}, site='positions')
+    except Exception as e:  # noqa: BLE001
+        ctx.fail(where, f'a read accessor (len / seq[j] / reversed / slices / count / ==) raised {_kind_of(e)}: {e}', site='positions')
     # get_nodes
     want = sorted(objs.tags([i for i in lst if 'ContentSequence' in i]))
     if isinstance(obs['nodes'], str):
@@ -465,14 +503,8 @@ def _oracle(ctx, case, step, seq, kind, objs, probes, obs):
     elif sorted(obs['nodes']) != want:
         ctx.fail(where, {'what': 'get_nodes differs from the items with content in the list', 'got': obs['nodes_uids'],
                          'want': want}, site='get_nodes')
-    # relationship rule over the current list (raw attribute presence, not the library's accessor); and what is in the
-    # list is a content item (every entry path tests the type)
-    from highdicom.sr import ContentItem as _CI
+    # relationship rule over the current list (raw attribute presence, not the library's accessor)
     for i in lst:
-        if not isinstance(i, _CI):
-            ctx.fail(where, {'what': 'an element of the sequence is not a content item', 'type': type(i).__name__},
-                     site='non-item-entered')
-            break
         has = 'RelationshipType' in i
         if (kind == 'root' and has) or (kind == 'sr' and not has):
             ctx.fail(where, {'what': 'relationship-type rule broken by an item in the sequence', 'item': _uid_of(i),
@@ -759,7 +791,7 @@ def run_history(ctx, case, oracle=True):
                 if op['op'] in ('pop', 'remove', 'reverse', 'clear') and err not in (None, 'index', 'value'):
                     ctx.fail({'case': case, 'step': k}, f'{op["op"]} failed with {err}', site=op['op'])
             elif op['op'] == 'clone' and err is not None and all(
-                    _ctor_documented_ok(kinds[t], objs.specs[u]) for u in trace[-2]['obs'][t]['uids']):
+                    u in objs.specs and _ctor_documented_ok(kinds[t], objs.specs[u]) for u in trace[-2]['obs'][t]['uids']):
                 ctx.fail({'case': case, 'step': k}, f'a sequence could not be constructed from a {kinds[t]} sequence with the '
                                                     f'same flags ({err})', site='clone')
             for m, (member, mk) in enumerate(zip(pool, kinds)):
